@@ -17,6 +17,12 @@ Next == /\ l <= Len(Rec)
                 ELSE IF m.beh = -1 THEN m' = m
                 ELSE LET S == SS[m.sid] IN
                      /\ LET v == Viol(S, m, e) IN \A i \in 1..Len(v) : Report(v[i][1], v[i][2], m.beh, l, v[i][4])
+                     \* vacuity statistics of the behaviour: accepted objects, recoverable ones (C02's antecedent), delivered ones
+                     /\ (e.ev = "end" /\ ~m.dead /\ ~m.mutated) =>
+                            PrintT(<<"STAT", ToJson([acc |-> Cardinality(Accepted(S)),
+                                                     rec |-> Cardinality({o \in Accepted(S) : Recoverable(S, m.pushed, o)}),
+                                                     del |-> Cardinality({o \in Accepted(S) : NExact(m, o) >= 1}),
+                                                     fail |-> Cardinality({o \in Accepted(S) : NFailed(m, o) >= 1})])>>)
                      /\ m' = Step(S, m, e)
         /\ l' = l + 1
 Spec == Init /\ [][Next]_<<l, m>>
